@@ -28,6 +28,15 @@ Technique: bounded-exhaustive exploration of every random input of `Region.unifo
     (d) uniformity, density test (`_density`): the mass of every uncut lattice box divided by the
         volume of its image (finite-difference Jacobian), summed over the boxes of all branches
         covering the same place, is one constant equal to P(accept) / measure, within 5 %.
+    History family (`history_cases`): compositions are also built from operand objects that are
+    not in their initial state.  A PolygonalFootprintRegion caches the bounded prism of its last
+    mesh operation; the same footprint object first serves every sequence of <= 2 (quick <= 1)
+    mesh operations with the partner low / high / straddling top / straddling bottom / far
+    relative to the cached prism, then mesh & footprint / mesh - footprint is built from it with
+    the mesh at each of these heights (and straddling the prism the last partner would cache) and
+    judged as usual; the harness counts cache reuse / replacement (both must occur).  A few other
+    stateful operands (sliced / queried meshes, polygons with cached triangulation and footprint,
+    voxel k-d tree) get the same treatment.
     A retry loop inside one primitive sampler (polygon triangle rejection) keeps its discrete
     branch: such branches are renormalised per branch (`analyse`), while a RejectionException
     restarts the whole sample and conditions globally.
